@@ -34,7 +34,10 @@ BOUNDS = float(np.radians(30.0))
 
 
 def regen():
-    return radio_gen.regen()
+    import srctie
+    d = radio_gen.regen()
+    d.update(srctie.regen("C20"))   # Gen/Src/C20.lean: the radio functions translated from the source of the working tree
+    return d
 
 
 # --------------------------------------------------------------------------- real code access
@@ -196,6 +199,11 @@ class World:
     def node(self, beta, alt):
         zen = np.degrees(np.pi / 2.0 - beta)
         return int(np.argmin(np.abs(zen - self.zen) + np.abs(alt - self.hei)))
+
+    def iono_row(self, lo, hi, tec):
+        """the parameter row of ionosphere_params.hdf5 for a band and a TEC (the row IonosphereParams selects)"""
+        m = (self.ifreqs == f"f_{int(lo)}_{int(hi)}") & (self.itec == tec)
+        return self.ipar[m][0]
 
     def pars_hex(self, j):
         if j not in self.row_hex:
@@ -397,6 +405,106 @@ def snr_close(m, s, row, lo, hi, rtol=1e-9):
     return abs(m - s) <= rtol * max(scale, abs(m)) + 1e-300
 
 
+# --------------------------------------------------------------------------- source tie (Gen/Src/C20.lean at Float vs the real code)
+
+
+def src_chain(ctx, w, H, band, iono, ev, mask, pos, EF, tec, uB, uA, kap, er):
+    """The translated `EASRadio.__call__` (one event, one bin), `get_decay_view` and `distance_to_detector` next to what
+    the real code returned for this batch.  Events whose result is dominated by cancellation (the same predicate as for
+    the model comparison) are left out: there the libm differences between numpy and the C library are amplified."""
+    import srctie
+    lo, hi = band
+    n = len(mask)
+    good = np.array([bool((not mask[i]) or (not ill_conditioned(ev, i, H) and kap[i] < 1e3)) for i in range(n)])
+    fc = w.ps[0][:, 0]
+    keep = np.nonzero((fc >= int(lo)) & (fc <= int(hi)))[0]
+    rows = []
+    real = []
+    for i in np.nonzero(good)[0]:
+        j = w.node(ev["beta"][i], ev["alt"][i])
+        p_ = pos[i] if mask[i] else 0
+        for k in sorted({0, len(keep) - 1, int(w.srng.integers(len(keep)))}):
+            par = w.ps[j][keep[k]]
+            r = [ev[c][i] for c in ("beta", "alt", "len", "theta", "path", "energy")] + [H, uB[p_] if mask[i] else 0.0, uA[p_] if mask[i] else 0.0] + list(par[1:6])
+            if tec is not None:
+                r += list(w.iono_row(lo, hi, iono[1])) + [tec[p_][k] if mask[i] else 0.0]
+            rows.append(r)
+            real.append(EF[i][k])
+    if rows:
+        cols = [np.array(c, dtype=np.float64) for c in zip(*rows)]
+        srctie.compare(ctx, "C20", "efieldCallIono" if tec is not None else "efieldCall", cols, [np.array(real)], rtol=1e-9, atol=1e-300)
+    # the two geometry functions on the same events (every event, masked or not; NaN must agree with NaN)
+    g = np.array([not ill_conditioned(ev, i, H) for i in range(n)])
+    if g.any():
+        th, pa, ln, be, al = (ev[c][g] for c in ("theta", "path", "len", "beta", "alt"))
+        with np.errstate(all="ignore"):
+            srctie.compare(ctx, "C20", "decayView", [th, pa, ln], [np.asarray(er.get_decay_view(th, pa, ln))], rtol=1e-9)
+            from nuspacesim.simulation.eas_optical.detector_geometry import distance_to_detector
+            for zd in (H, 525.0):
+                srctie.compare(ctx, "C20", "distToDet", [be, al, np.full(len(be), zd), np.full(len(be), RE)],
+                               [np.asarray(distance_to_detector(be, al, zd, RE))], rtol=1e-9)
+
+
+def src_antenna(ctx, w):
+    """The translated antenna-side functions, the per-bin field and the ionosphere factor next to the real functions."""
+    import srctie
+    A, R, rng = w.A, w.R, w.srng
+    n = 200
+    f = np.concatenate([np.arange(0, 1650, 10.0) + 5.0, 10 ** rng.uniform(0.5, 3.3, n - 165)])
+    h = np.concatenate([[5.0, 33.0, 525.0, 36000.0], 10 ** rng.uniform(0, 5, n - 4)])
+    e = rng.standard_normal(n) * 10 ** rng.uniform(-8, -2, n)
+    gain = 10 ** rng.uniform(-1, 1.5, n)
+    srctie.compare(ctx, "C20", "voltageFromField", [e, f, gain], [np.array([A.voltage_from_field(np.array([e[i]]), np.array([f[i]]), float(gain[i]))[0] for i in range(n)])], rtol=1e-15)
+    # (1 − exp(−τ))/τ with τ = 5 f^−2.1 down to 1e-6 amplifies the last-bit differences of pow/exp by 1/τ
+    srctie.compare(ctx, "C20", "skyNoise", [f], [np.asarray(A.sky_noise(f))], rtol=1e-9)
+    srctie.compare(ctx, "C20", "noiseVoltage", [f, h], [np.array([A.noise_voltage(np.array([f[i]]), float(h[i]))[0] for i in range(n)])], rtol=1e-9)
+    # calculate_snr with the sums unrolled: positive rows (the sum is well conditioned; numpy adds in a different order)
+    for name, band in (("calculateSnr5", (30.0, 80.0)), ("calculateSnr1", (30.0, 40.0))):
+        nb = int((band[1] - band[0]) // 10)
+        m = 60
+        rowsE = 10 ** rng.uniform(-7, -3, (m, nb))
+        rowsE[0, 0] = 0.0
+        hs = 10 ** rng.uniform(0.5, 4.5, m)
+        Ns = rng.choice([1, 2, 3, 10, 16, 100], m).astype(float)
+        gs = 10 ** rng.uniform(-1, 1.5, m)
+        freqs = np.arange(band[0], band[1], 10.0) + 5.0
+        real = np.array([A.calculate_snr(rowsE[i:i + 1], band, float(hs[i]), int(Ns[i]), float(gs[i]))[0] for i in range(m)])
+        cols = [rowsE[:, k] for k in range(nb)] + [hs, Ns, gs] + [np.full(m, fk) for fk in freqs]
+        srctie.compare(ctx, "C20", name, cols, [real], rtol=1e-9)
+    # the per-bin field on the row the look-up selects
+    rp = R.RadioEFieldParams((30.0, 300.0))
+    m = 40
+    zen = rng.uniform(40.0, 90.0, m); va = rng.uniform(-3.0, 3.0, m); hh = rng.uniform(0.0, 10.0, m)
+    out = np.asarray(rp(zen.copy(), va.copy(), hh.copy()))
+    fc = w.ps[0][:, 0]
+    keep = np.nonzero((fc >= 30) & (fc <= 300))[0]
+    rows, real = [], []
+    for i in range(m):
+        j = int(np.argmin(np.abs(zen[i] - w.zen) + np.abs(hh[i] - w.hei)))
+        for k in range(0, len(keep), 4):
+            rows.append([zen[i], va[i], hh[i]] + list(w.ps[j][keep[k]][1:6]))
+            real.append(out[i][k])
+    srctie.compare(ctx, "C20", "fieldBin", [np.array(c) for c in zip(*rows)], [np.array(real)], rtol=1e-11, atol=1e-300)
+    # the ionosphere factor of every supported band / TEC for drawn TEC errors
+    import io, contextlib
+    rows, real = [], []
+    for name, tecv, par in zip(w.ifreqs, w.itec, w.ipar):
+        _, lo, hi = name.split("_")
+        terr = float(rng.choice([0.0, 0.1, 1.0, 5.0, 10.0]))
+        with contextlib.redirect_stdout(io.StringIO()):
+            ip = R.IonosphereParams((float(lo), float(hi)), terr, float(tecv))
+        if not ip.params_exist:
+            ctx.disagree("C20.src.ionoScale", {"band": name, "TEC": float(tecv), "what": "a row of ionosphere_params.hdf5 is reported unsupported"})
+            continue
+        uni = Uniform(rng)
+        with Patched(uni):
+            sc = np.asarray(ip(np.zeros((2, 3)))).ravel()
+        for t, s_ in zip(uni.calls[0][3].ravel(), sc):
+            rows.append([0.0] + [float(x) for x in ip.params] + [float(t)])
+            real.append(float(s_))
+    srctie.compare(ctx, "C20", "ionoScale", [np.array(c) for c in zip(*rows)], [np.array(real)], rtol=1e-15)
+
+
 def run_chain(ctx, w, H, band, iono, n, tag):
     """One configuration: a batch through the real chain, the model on the same inputs, and the relational checks."""
     nss, R, A = w.nss, w.R, w.A
@@ -459,6 +567,7 @@ def run_chain(ctx, w, H, band, iono, n, tag):
         js.append(j)
     out = run_driver_sharded(lines, 4)
     kap = [mix_kappa(ev, i, uB[pos[i]], uA[pos[i]]) if mask[i] else 1.0 for i in range(n)]
+    src_chain(ctx, w, H, band, iono, ev, mask, pos, EF, tec, uB, uA, kap, R.EASRadio(cfg))
     for i, o in enumerate(out):
         jm, inr, ion, k = int(o[0]), o[1] == "1", o[2] == "1", int(o[3])
         rowm = np.array([h2f(x) for x in o[4:4 + k]])
@@ -689,6 +798,8 @@ def run(ctx: Ctx):
     w = World()
     rng = ctx.rng
     check_constants(ctx, w)
+    w.srng = ctx.rng.spawn(1)[0]   # the source-tie streams draw from a child generator: the other streams are unchanged by them
+    src_antenna(ctx, w)
     # ---- bands: every special band always; quick = + a sample, thorough = all 13 695
     bands = all_bands()
     if ctx.thorough:
